@@ -193,6 +193,7 @@ def c_custom(dtw_cc, np, MK, r, c, cs, rs=None, cs_col=None, isclose=None):
 def run(ctx):
     import numpy as np
     from dtaidistance import dtw, dtw_ndim, dtw_cc
+    monitors.guard_backtracking(ctx)      # bounded progress for every back-tracking call, wherever it is made
     mods = (dtw, dtw_ndim, dtw_cc)
     rng = ctx.rng
     L, W = (6, 6) if ctx.quick else (8, 9)
